@@ -4,6 +4,7 @@ package main
 
 import (
 	"bytes"
+	"context"
 	"encoding/json"
 	"fmt"
 	logslog "log/slog"
@@ -12,6 +13,7 @@ import (
 	"strconv"
 	"strings"
 	"sync"
+	"sync/atomic"
 
 	"github.com/hedzr/logg/slog"
 )
@@ -424,6 +426,9 @@ func c08RunRound(r *Run, rd *c08Round, st *c08Stats) (obs [][2]int, admitted []b
 	for _, p := range panics {
 		fail("C08/panic-under-concurrency", "a log call panicked while other goroutines were logging: "+c08clip(p, 300), nil)
 	}
+	if why := c08FreshLevels(rd); why != "" {
+		fail("C08/fresh-levels", why, nil)
+	}
 
 	// --- oracle ---
 	got := make([]map[int]int, total)
@@ -611,4 +616,66 @@ func (rd *c08Round) sharing() (bool, string) {
 		}
 	}
 	return kind != "", kind
+}
+
+// c08FreshLevels: a burst of records at severities this process has never used (unregistered, negative: every logger
+// but an Off one admits them) from several goroutines at once - whatever the library derives per severity on first
+// use (names, tags) is derived concurrently.  Every call delivers exactly one record carrying its own marker.
+var c08FreshLevel atomic.Int64
+
+func c08FreshLevels(rd *c08Round) string {
+	w := &c08W{id: 999}
+	e := slog.VerifEntryOf(slog.New(fmt.Sprintf("c08fresh%d", rd.Idx)))
+	e.SetLevel(slog.InfoLevel)
+	c08SetMode(e, []string{"json", "logfmt", "color"}[rd.Idx%3])
+	e.SetWriter(w).SetErrorWriter(w)
+	const G, N = 6, 12
+	var wg sync.WaitGroup
+	var pmu sync.Mutex
+	var panics []string
+	start := make(chan struct{})
+	base := c08FreshLevel.Add(G * N)
+	for g := 0; g < G; g++ {
+		wg.Add(1)
+		go func(g int) {
+			defer wg.Done()
+			defer func() {
+				if x := recover(); x != nil {
+					pmu.Lock()
+					panics = append(panics, fmt.Sprint(x))
+					pmu.Unlock()
+				}
+			}()
+			<-start
+			for i := 0; i < N; i++ {
+				k := g*N + i
+				lvl := slog.Level(-1000 - (base - int64(k)))
+				e.Logit(context.Background(), lvl, fmt.Sprintf("C08F%d;", k), fmt.Sprintf("FQ%dX", k), k)
+			}
+		}(g)
+	}
+	close(start)
+	wg.Wait()
+	if len(panics) > 0 {
+		return "a log call at a severity used for the first time panicked while other goroutines were logging: " + c08clip(panics[0], 300)
+	}
+	seen := map[int]int{}
+	for _, p := range w.recs {
+		var m, a int
+		if _, err := fmt.Sscanf(string(p[bytes.Index(p, []byte("C08F")):]), "C08F%d;", &m); err != nil || bytes.Count(p, []byte("C08F")) != 1 {
+			return fmt.Sprintf("a payload of the fresh-severity burst is not the record of one call: %q", c08clip(string(p), 300))
+		}
+		if i := bytes.Index(p, []byte("FQ")); i < 0 {
+			return fmt.Sprintf("record %d of the fresh-severity burst lost its attribute: %q", m, c08clip(string(p), 300))
+		} else if _, err := fmt.Sscanf(string(p[i:]), "FQ%dX", &a); err != nil || a != m {
+			return fmt.Sprintf("record %d of the fresh-severity burst carries the attribute of call %d: %q", m, a, c08clip(string(p), 300))
+		}
+		seen[m]++
+	}
+	for k := 0; k < G*N; k++ {
+		if seen[k] != 1 {
+			return fmt.Sprintf("call %d of the fresh-severity burst was delivered %d times", k, seen[k])
+		}
+	}
+	return ""
 }
